@@ -513,9 +513,9 @@ struct TemplateCore {
 
                                     if (!skip) {
                                         if (tag.TrueOffset < tag.FalseOffset) {
-                                            tag.FalseTagsStartID = SizeT8(id);
+                                            tag.FalseTagsStartID = id;
                                         } else {
-                                            tag.TrueTagsStartID = SizeT8(id);
+                                            tag.TrueTagsStartID = id;
                                         }
                                     }
                                 } else if ((tag.TrueOffset == SizeT16{0}) && (tag.FalseOffset == SizeT16{0})) {
